@@ -12,6 +12,38 @@ mod ex {
 }
 use ex::c::{ExampleContract, ExampleContractClient};
 
+/// The same token written the other way the library offers: no method spelled out, everything left to the
+/// `NonFungibleToken` / `NonFungibleBurnable` DEFAULT methods, which dispatch through `ContractOverrides for Consecutive`
+/// (the example's explicit `Self::ContractType::transfer(..)` resolves to the inherent functions instead and never reaches
+/// that impl). Same entry-point names and constructor as the example, so the example's client drives both.
+pub mod defaults {
+    use soroban_sdk::{contract, contractimpl, contracttype, Address, Env, String};
+    use stellar_tokens::non_fungible::{burnable::NonFungibleBurnable, consecutive::{Consecutive, NonFungibleConsecutive}, Base, NonFungibleToken};
+    #[contracttype]
+    pub enum DataKey { Owner }
+    #[contract]
+    pub struct ConsDefaults;
+    #[contractimpl]
+    impl ConsDefaults {
+        pub fn __constructor(e: &Env, uri: String, name: String, symbol: String, owner: Address) {
+            e.storage().instance().set(&DataKey::Owner, &owner);
+            Base::set_metadata(e, uri, name, symbol);
+        }
+        pub fn batch_mint(e: &Env, to: Address, amount: u32) -> u32 {
+            let owner: Address = e.storage().instance().get(&DataKey::Owner).expect("owner should be set");
+            owner.require_auth();
+            Consecutive::batch_mint(e, &to, amount)
+        }
+    }
+    #[contractimpl(contracttrait)]
+    impl NonFungibleToken for ConsDefaults {
+        type ContractType = Consecutive;
+    }
+    impl NonFungibleConsecutive for ConsDefaults {}
+    #[contractimpl(contracttrait)]
+    impl NonFungibleBurnable for ConsDefaults {}
+}
+
 #[derive(Clone, Copy, Debug, Serialize, Deserialize, PartialEq)]
 pub enum Live {
     Revoke,
@@ -40,6 +72,9 @@ pub enum Step {
 pub struct Cfg {
     pub actors: usize,
     pub start_ledger: u32,
+    /// run against the defaults-based contract instead of examples/nft-consecutive
+    #[serde(default)]
+    pub defaults: bool,
 }
 const MAX_TTL: u32 = 6_311_999;
 
@@ -217,7 +252,7 @@ impl Check for NftConsecutive {
         Some(Step::Advance { n })
     }
     fn probes(&self, _prop: &str) -> std::vec::Vec<&'static str> {
-        vec!["probe.batch_crosses_bucket", "probe.full_sweep"]
+        vec!["probe.batch_crosses_bucket", "probe.full_sweep", "probe.run_on_defaults_based_contract", "probe.run_on_example_contract"]
     }
     fn dup_ok(&self, _s: &Step) -> bool {
         true
@@ -235,7 +270,7 @@ impl Check for NftConsecutive {
         }
     }
     fn generate(&self, rng: &mut Rng, tier: Tier) -> (Cfg, Vec<Step>) {
-        let cfg = Cfg { actors: 3 + rng.below(3) as usize, start_ledger: 1 + rng.below(100_000) as u32 };
+        let cfg = Cfg { actors: 3 + rng.below(3) as usize, start_ledger: 1 + rng.below(100_000) as u32, defaults: rng.chance(40) };
         let n = cfg.actors as u64;
         let nsteps = if tier == Tier::Quick { 25 + rng.below(50) } else { 25 + rng.below(100) } as usize;
         let mut m = Model { now: cfg.start_ledger, ..Default::default() };
@@ -342,7 +377,9 @@ impl Check for NftConsecutive {
         let w = W::new(cfg.actors, cfg.start_ledger, 16);
         let e = &w.e;
         let a = |i: usize| w.actors[i].clone();
-        let id = e.register(ExampleContract, (SString::from_str(e, "https://x/"), SString::from_str(e, "n"), SString::from_str(e, "s"), a(0)));
+        let ctor = (SString::from_str(e, "https://x/"), SString::from_str(e, "n"), SString::from_str(e, "s"), a(0));
+        let id = if cfg.defaults { e.register(defaults::ConsDefaults, ctor) } else { e.register(ExampleContract, ctor) };
+        st.hit(if cfg.defaults { "probe.run_on_defaults_based_contract" } else { "probe.run_on_example_contract" });
         let c = ExampleContractClient::new(e, &id);
         let mut m = Model { now: cfg.start_ledger, ..Default::default() };
         let mut watch: BTreeSet<u32> = BTreeSet::new();
